@@ -21,5 +21,5 @@ for P in "$@"; do
   ( cd "$VERIF" && RV_HARNESS=$H RV_OUT=$OUT RV_TARGET=target VERIF_SEED=${VERIF_SEED:-1} timeout 3000 python3 bin/check.py $P --tier ${TIER:-quick} 2>&1 | grep -E "VIOLATION|KNOWN-FINDING|INFRASTRUCTURE|^\[$P\]" | cut -c1-300 | head -12 )
   # first replay, abbreviated
   f=$(ls $OUT/replays/$P/* 2>/dev/null | head -1)
-  [ -n "$f" ] && { echo "--- first replay:"; head -c 1500 "$f"; echo; }
+  [ -n "$f" ] && { echo "--- first replay:"; head -c 1500 "$f"; echo; grep -h "minimised_scenario\"" $OUT/replays/$P/* | head -2 | cut -c1-600; }
 done
